@@ -20,7 +20,7 @@ def normalise(contents):
     return STAMP.sub("// <generation stamp>", str(contents))
 
 
-def file_map(gen, fcp, tmp):
+def file_map(gen, fcp, tmp, into_written_dir=False):
     import importlib
 
     mod = importlib.import_module("fcp_" + gen)
@@ -31,6 +31,15 @@ def file_map(gen, fcp, tmp):
         generator = mod.Generator()
         if GENERATORS is not None and REUSE_GENERATORS:
             GENERATORS[gen] = generator
+    if into_written_dir:
+        # the output directory already holds what an earlier run wrote there (the same files, one of them
+        # with older contents): what generate() returns may not depend on that
+        first = generator.generate(fcp, {"output": out, "templates": {}, "skels": {}})
+        for k, f in enumerate(first):
+            if f.get("type") == "file":
+                os.makedirs(os.path.dirname(str(f["path"])), exist_ok=True)
+                with open(str(f["path"]), "w") as fh:
+                    fh.write(str(f["contents"]) if k % 3 else "/* older contents */\n")
     res = generator.generate(fcp, {"output": out, "templates": {}, "skels": {}})
     m = {}
     order = []
@@ -74,6 +83,36 @@ def generate_all(path, tmp, gens=GENS):
         except Exception as e:
             out[g] = {"<exception>": "%s: %s" % (type(e).__name__, str(e)[:200])}
     return out
+
+
+def default_value(fcp, t):
+    n = type(t).__name__
+    if n in ("UnsignedType", "SignedType"):
+        return 1
+    if n in ("FloatType", "DoubleType"):
+        return 0.5
+    if n == "StringType":
+        return "x"
+    if n == "EnumType":
+        return fcp.get_enum(t.name).unwrap().enumeration[0].value
+    if n == "StructType":
+        return {f.name: default_value(fcp, f.type) for f in fcp.get_struct(t.name).unwrap().fields}
+    if n == "ArrayType":
+        return [default_value(fcp, t.underlying_type) for _ in range(min(t.size, 64))] if t.size <= 64 else [default_value(fcp, t.underlying_type)] * t.size
+    if n == "DynamicArrayType":
+        return [default_value(fcp, t.underlying_type)]
+    if n == "OptionalType":
+        return default_value(fcp, t.underlying_type)
+    raise ValueError(n)
+
+
+def use_codec(fcp):
+    from fcp import serde
+
+    for st in list(fcp.structs):
+        v = {f.name: default_value(fcp, f.type) for f in st.fields}
+        data = serde.encode(fcp, st.name, v)
+        serde.decode(fcp, st.name, bytearray(data))
 
 
 def noise(r, others, tmp):
@@ -183,6 +222,20 @@ def main():
                     per[g + "/first"] = safe_map(g)
                     per[g + "/second"] = safe_map(g)
                 per["cpp/after-others"] = safe_map("cpp")
+                # ... and once more after the Python codec has encoded and decoded a value of every struct
+                # with this very tree object
+                try:
+                    use_codec(fcp)
+                    per["codec-uses"] = {"<ok>": "1"}
+                except Exception as e:
+                    per["codec-uses"] = {"<exception>": "%s: %s" % (type(e).__name__, str(e)[:200])}
+                for g in GENS:
+                    per[g + "/after-codec"] = safe_map(g)
+                for g in GENS:
+                    try:
+                        per[g + "/into-written-dir"] = file_map(g, parse(path).unwrap(), tmp, into_written_dir=True)[0]
+                    except Exception as e:
+                        per[g + "/into-written-dir"] = {"<exception>": "%s: %s" % (type(e).__name__, str(e)[:200])}
                 out["results"][path] = per
     finally:
         shutil.rmtree(tmp, ignore_errors=True)
